@@ -5,12 +5,19 @@ import (
 	"encoding/json"
 	"fmt"
 	"io"
+	"os"
 	"sort"
+	"strings"
 
+	"github.com/ipld/go-ipld-prime"
 	"github.com/ipld/go-ipld-prime/datamodel"
+	cidlink "github.com/ipld/go-ipld-prime/linking/cid"
 
 	"verif/harness/core"
+	"verif/harness/gen"
 	"verif/harness/model"
+	"verif/harness/store"
+	"verif/harness/xplore"
 )
 
 func init() {
@@ -135,7 +142,85 @@ func c01Case(c fileCase, viol func(sig, detail string), r *core.Run) {
 	}
 }
 
+// c01Concurrent: two file builds interleaved at every storage operation (one
+// shared LinkSystem, preemption bound 2); each file must then read back to its
+// own bytes and declare its own length.
+func c01Concurrent(r *core.Run) {
+	var execs int64
+	for _, pr := range c11Pairs() {
+		pr := pr
+		if pr[0].content == nil || pr[1].content == nil {
+			continue
+		}
+		desc := c11PairName(pr)
+		ex := &xplore.Explorer{Bound: 2, Horizon: 4000, Replay: 2, MaxExecs: 200000, OnDiverge: func(ch []int, a, b string) {
+			r.InternalError(fmt.Sprintf("C01 concurrent: nondeterministic replay %s %v: %q vs %q", desc, ch, a, b))
+		}}
+		gen.WithWidth(2, func() {
+			solo := c11Solo(pr)
+			ex.Explore(func(x *xplore.Ctx) string {
+				rp := func() any {
+					return map[string]any{"kind": "concurrent", "pair": desc, "choices": append([]int{}, x.Choices...)}
+				}
+				return c11ConcurrentBody(pr, solo, x, func(sig, detail string) {
+					if strings.HasPrefix(sig, "returned-size") {
+						return // sizes are C11's business
+					}
+					r.Violate(sig, detail, rp())
+				}, func(s *store.Store, roots [2]ipld.Link, choices []int) {
+					ls := lsFor(s)
+					for i, l := range roots {
+						if l == nil {
+							continue
+						}
+						root := l.(cidlink.Link).Cid
+						rn, err := loadRoot(ls, root)
+						if err != nil {
+							r.Violate("load-root concurrent", fmt.Sprintf("%s: build %d: %v (choices %v)", desc, i, err, choices), rp())
+							continue
+						}
+						n, err := openVia("Reify", ls, rn)
+						if err != nil {
+							r.Violate("reify concurrent", fmt.Sprintf("%s: build %d: %v (choices %v)", desc, i, err, choices), rp())
+							continue
+						}
+						got, err := n.AsBytes()
+						if err != nil || !bytes.Equal(got, pr[i].content) {
+							r.Violate("asbytes concurrent", fmt.Sprintf("%s: file %d reads back %s (err %v), want %s (schedule choices %v)", desc, i, clip(got, 16), err, clip(pr[i].content, 16), choices), rp())
+						}
+						if lb, ok := n.(datamodel.LargeBytesNode); ok {
+							if rs, err := lb.AsLargeBytes(); err == nil {
+								if e, err := rs.Seek(0, io.SeekEnd); err != nil || e != int64(len(pr[i].content)) {
+									r.Violate("seek-end concurrent", fmt.Sprintf("%s: file %d: Seek(0,End) = %d, %v; the file has %d bytes (schedule choices %v)", desc, i, e, err, len(pr[i].content), choices), rp())
+								}
+							}
+						}
+						if blk, err := model.Load(s, root); err == nil && blk.FS != nil && blk.PB != nil && len(blk.PB.Links) > 0 {
+							if blk.FS.Filesize == nil || int(blk.FS.GetFilesize()) != len(pr[i].content) {
+								r.Violate("declared-filesize concurrent", fmt.Sprintf("%s: file %d: root FileSize=%d, the file has %d bytes (schedule choices %v)", desc, i, blk.FS.GetFilesize(), len(pr[i].content), choices), rp())
+							}
+						}
+					}
+				})
+			}, func(res xplore.Result) {
+				if res.Panic != nil {
+					r.Violate("panic scheduler", fmt.Sprint(res.Panic), nil)
+				}
+			})
+		})
+		execs += int64(ex.Stats.Executions)
+		r.Transitions.Add(int64(ex.Stats.ChoicePoints))
+		r.States.Add(1)
+		r.Distinct("concurrent " + desc)
+	}
+	r.Evaluations.Add(execs)
+	r.Set("concurrent_build_schedules", execs)
+	r.Set("concurrent_build_preemption_bound", 2)
+	r.Set("instrumentation", os.Getenv("VERIF_INSTR"))
+}
+
 func runC01(r *core.Run) {
+	c01Concurrent(r)
 	r.Rule("bounded-exhaustive: every chunk count 0..w^3+w+1 per width (all balanced shapes incl. w^k boundaries), last chunk full/short/1-byte, patterns distinct+equal, chunkers size-K; writers = this builder + reference importer {balanced,trickle}x{raw,pb leaves}x{v0,v1}; each DAG opened through NewUnixFSFile/Reify/unixfs/unixfs-preload and read whole + streamed with every buffer size; a case is distinct by (writer,width,chunker,length,pattern)")
 	r.Assume("byte values limited to two content patterns; bufio-free readers only")
 	var cases []fileCase
